@@ -20,7 +20,7 @@ was needed.  The population theorems count `held s i` = number of handles node
 `i` holds.
 -/
 namespace SqVerif.C02
-open SqVerif.VNet
+open SqVerif.VNet SqVerif.VNet.WFP
 
 /-! ### T02.1 – T02.3: `WF` is an invariant of every history -/
 
